@@ -8,6 +8,30 @@ from vmon.ref import dns as ref
 UTC = datetime.timezone.utc
 
 
+def coordinate(rng, bits):
+    """Fixed-width field element: mostly random, sometimes with zero bytes at either end (fixed-width encoders drop them)."""
+    value = rng.getrandbits(bits)
+    shape = rng.randrange(10)
+    if shape == 0:
+        return value >> 8 * rng.randrange(1, 3)         # leading zero bytes
+    if shape == 1:
+        return value & ~((1 << 8 * rng.randrange(1, 3)) - 1)    # trailing zero bytes
+    if shape == 2:
+        return rng.choice([1, 2 ** bits - 1, 2 ** (bits - 1)])
+    return value
+
+
+def ec_key(rng, ckey, group, bits):
+    """(key object, x, y); coordinate pairs the third-party key class cannot hold (asn1crypto derives the point width from
+    log2 of the coordinates: both tiny, or an exact power of two) are redrawn."""
+    while True:
+        x, y = coordinate(rng, bits), coordinate(rng, bits)  # pylint: disable=invalid-name
+        try:
+            return ckey.PublicKey.from_params(ckey.PublicKeyParamsEcdsa(named_group=group, point_x=x, point_y=y)), x, y
+        except (ValueError, OverflowError):
+            continue
+
+
 def _mods():
     import cryptoparser.dnsrec.record as record  # pylint: disable=import-outside-toplevel
     import cryptodatahub.dnsrec.algorithm as alg  # pylint: disable=import-outside-toplevel
@@ -60,13 +84,11 @@ def dnskey(rng):  # pylint: disable=too-many-locals,too-many-branches,too-many-s
         algorithm = alg.DnsSecAlgorithm.ECDSAP256SHA256 if kind == 'p256' else alg.DnsSecAlgorithm.ECDSAP384SHA384
         size = 32 if kind == 'p256' else 48
         group = calg.NamedGroup.PRIME256V1 if kind == 'p256' else calg.NamedGroup.SECP384R1
-        x, y = rng.getrandbits(size * 8), rng.getrandbits(size * 8)  # pylint: disable=invalid-name
-        key = ckey.PublicKey.from_params(ckey.PublicKeyParamsEcdsa(named_group=group, point_x=x, point_y=y))
+        key, x, y = ec_key(rng, ckey, group, size * 8)  # pylint: disable=invalid-name
         public = ref.key_ecdsa(x, y, size)
     elif kind == 'gost':
         algorithm = alg.DnsSecAlgorithm.ECCGOST
-        x, y = rng.getrandbits(256), rng.getrandbits(256)  # pylint: disable=invalid-name
-        key = ckey.PublicKey.from_params(ckey.PublicKeyParamsEcdsa(named_group=calg.NamedGroup.GC256B, point_x=x, point_y=y))
+        key, x, y = ec_key(rng, ckey, calg.NamedGroup.GC256B, 256)  # pylint: disable=invalid-name
         public = ref.key_gost(x, y)
     elif kind == 'ed25519':
         algorithm = alg.DnsSecAlgorithm.ED25519
